@@ -167,15 +167,6 @@ theorem mouse_relative_absGeometry (t : Tree) (hwf : WF t) (F f f0 : Nat) (ev : 
 
 /-! ### hidden windows -/
 
-/-- An offer was made while the window and all its ancestors were visible (the ghost bit of the log item). -/
-def ShownOffer : LogItem → Prop
-  | .offer _ _ _ b => b = true
-  | _ => True
-
-theorem shownOffer_routed (cfg : Cfg) (hc : cfg.shown = true) (kind : Kind) (ev : Ev) : Routed cfg kind ev ShownOffer :=
-  { destroyed := fun _ => trivial, refused := fun _ => trivial, call := fun _ _ _ _ _ _ => trivial,
-    offer := fun _ _ _ _ h => h hc }
-
 /-- The reference orders contain only windows that are visible together with all their ancestors. -/
 theorem reference_orders_visible (t : Tree) (hwf : WF t) (F : Nat) (win : WinTree.Id) :
     (∀ ws, keyVisits t F win = some ws → ∀ x ∈ ws, visibleChain t (treeFuel t) x = true) ∧
@@ -184,22 +175,6 @@ theorem reference_orders_visible (t : Tree) (hwf : WF t) (F : Nat) (win : WinTre
   ⟨keyVisits_visible t F win, fun ev ws a b hv ho x e hx => (mouseVisits_relative hwf F win ev ws a b hv ho x e hx).1⟩
 
 /-! ### drag synthesis -/
-
-/-- What a log item carries, if it is an offer or a handler call. -/
-def evOf : LogItem → Option Ev
-  | .offer _ _ e _ => some e
-  | .call _ _ _ _ _ e => some e
-  | _ => none
-
-/-- Every event the item carries satisfies `Q`. -/
-def Carries (Q : Ev → Prop) (i : LogItem) : Prop := ∀ e, evOf i = some e → Q e
-
-theorem carries_routed (cfg : Cfg) (ev : Ev) (Q : Ev → Prop) (hQ : ∀ e, sameKind ev e → Q e) :
-    Routed cfg .mouse ev (Carries Q) :=
-  { destroyed := fun _ e h => by simp [evOf] at h,
-    refused := fun _ e h => by simp [evOf] at h,
-    call := fun _ _ _ _ e hk e' h => by simp only [evOf, Option.some.injEq] at h; subst h; exact hQ e hk,
-    offer := fun _ e _ hk _ e' h => by simp only [evOf, Option.some.injEq] at h; subst h; exact hQ e hk }
 
 /-- A PRESS is remembered: button and cell go into the root's press memory, nothing is dispatched for it. -/
 theorem press_recorded (cfg : Cfg) (fuel : Nat) (st : St) (ev : Ev) (hp : ev.type = evPress) :
@@ -266,34 +241,6 @@ theorem drag_outside_iff (cfg : Cfg) (fuel : Nat) (st : St) (ev : Ev) (handled :
   cases st.tree.root.dragSource with
   | none => rfl
   | some src => by_cases h1 : ev.type = evDrag <;> by_cases h2 : handled = some src <;> simp [h1, h2]
-
-theorem onTermMouse_ok {cfg : Cfg} {fuel : Nat} {st st' : St} {ev : Ev} {r : Bool}
-    (h : onTermMouse cfg fuel st ev = Out.ok (st', r)) :
-    ∃ st0 st1 st2 handled st3 st4, refWin st 0 = Res.ok st0 ∧ dragPrelude cfg fuel st0 ev = Out.ok st1 ∧
-      handleMouse cfg fuel st1 0 ev = Out.ok (st2, handled) ∧ dragOutside cfg fuel st2 ev handled = Out.ok st3 ∧
-      dropResult cfg st3 handled = Res.ok st4 ∧ unrefLogged st4 0 = Res.ok st' ∧ r = handled.isSome := by
-  unfold onTermMouse at h
-  obtain ⟨st0, h0, h⟩ := lift_bind_eq_ok.1 h
-  obtain ⟨st1, h1, h⟩ := out_bind_eq_ok.1 h
-  obtain ⟨⟨st2, handled⟩, h2, h⟩ := out_bind_eq_ok.1 h
-  obtain ⟨st3, h3, h⟩ := out_bind_eq_ok.1 h
-  obtain ⟨st4, h4, h⟩ := lift_bind_eq_ok.1 h
-  obtain ⟨st5, h5, h⟩ := lift_bind_eq_ok.1 h
-  simp only [out_pure, Out.ok.injEq, Prod.mk.injEq] at h
-  obtain ⟨rfl, rfl⟩ := h
-  exact ⟨st0, st1, st2, handled, st3, st4, h0, h1, h2, h3, h4, h5, rfl⟩
-
-theorem dragOutside_ext {cfg : Cfg} {P : LogItem → Prop} {fuel : Nat} {st st' : St} {ev : Ev} {handled : Option WinTree.Id}
-    (hp : ∀ l c, Routed cfg .mouse { type := evDragOutside, button := ev.button, line := l, col := c } P)
-    (h : dragOutside cfg fuel st ev handled = Out.ok st') : Ext P st st' := by
-  unfold dragOutside at h
-  cases hs : st.tree.root.dragSource with
-  | none => simp only [hs, out_pure, Out.ok.injEq] at h; subst h; exact Ext.refl _ _
-  | some src =>
-    simp only [hs] at h
-    by_cases hc : (ev.type = evDrag && handled ≠ some src) = true
-    · rw [if_pos hc] at h; exact toDragSource_ext hp h
-    · rw [if_neg hc] at h; simp only [out_pure, Out.ok.injEq] at h; subst h; exact Ext.refl _ _
 
 /-- **hidden_never.**  Whatever the handlers do (claim, decline, mutate the tree), and for every event: every offer
     made during `on_term_key` / `on_term_mouse` by the code with the visibility repair goes to a window that is
@@ -423,5 +370,261 @@ theorem drag_drop_stop_order (cfg : Cfg) (fuel : Nat) (st st' : St) (ev : Ev) (r
   obtain ⟨n2, l2, p2⟩ := eStop
   obtain ⟨n3, l3, p3⟩ := eRel
   exact ⟨n1, n2, n3, by rw [l3, l2, l1, hlog0]; simp only [List.append_assoc], p1, p2, p3⟩
+
+/-! ### mutations from inside handlers
+
+  Concrete histories (the same as corpus/C14/*.ops), run on the model of the code before and after the repairs.
+  They are evaluated by the kernel (`decide +kernel`): each is a single, complete computation. -/
+
+namespace Scenario
+
+/-- Run engine operations in order; `none` if one of them does not return. -/
+def build (ops : List (St → Option St)) (st : St) : Option St := ops.foldl (fun s f => s.bind f) (some st)
+
+def opWin (p : WinTree.Id) (r : Rect) (flags : Nat := 0) : St → Option St := fun s =>
+  match newWin s p r (flags &&& 4 != 0) (flags &&& 1 != 0) (flags &&& 2 != 0) (flags &&& 8 != 0) with
+  | .ok (s', _) => some s'
+  | .ub _ => none
+
+def opBind (w : WinTree.Id) (k : Kind) (es : List Entry) : St → Option St := fun s => some (addBinding s w k es).1
+
+def opAct (a : Act) (w : WinTree.Id) : St → Option St := fun s =>
+  match doAction s ⟨a, w⟩ with
+  | .ok s' => some s'
+  | .ub _ => none
+
+def opKey (cfg : Cfg) (ev : Ev) : St → Option St := fun s =>
+  match emitKey cfg s ev with
+  | .ok s' => some s'
+  | _ => none
+
+def opMouse (cfg : Cfg) (ev : Ev) : St → Option St := fun s =>
+  match emitMouse cfg s ev with
+  | .ok s' => some s'
+  | _ => none
+
+def decl : Entry := { ret := false }
+def claim : Entry := { ret := true }
+def doing (ret : Bool) (a : Act) (w : WinTree.Id) : Entry := { ret := ret, actions := [⟨a, w⟩] }
+
+/-- The windows that were offered an event, oldest first. -/
+def offered (o : Option (Out St)) : Option (List WinTree.Id) :=
+  o.bind fun r => match r with
+    | .ok s => some ((offers s.log).map (·.2.1))
+    | _ => none
+
+def isUb (o : Option (Out St)) : Option Bool := o.map Out.isUb
+
+/-- Three siblings in a row (3 in front, then 2, then 1), all with a declining key handler; the front-most one
+    also performs `a` on window 2, the next sibling.  (corpus/C14/key_next_closed.ops, key_next_freed.ops) -/
+def threeSiblingsKey (a : Act) : Option St :=
+  build [opWin 0 ⟨0, 0, 1, 1⟩, opWin 0 ⟨0, 1, 1, 1⟩, opWin 0 ⟨0, 2, 1, 1⟩,
+         opBind 3 .key [doing false a 2], opBind 2 .key [decl], opBind 1 .key [decl]] (newSt 5 8)
+
+/-- Three windows over the same cell, mouse handlers.  (mouse_next_closed.ops, mouse_next_freed.ops) -/
+def threeStackedMouse (a : Act) : Option St :=
+  build [opWin 0 ⟨0, 0, 2, 2⟩, opWin 0 ⟨0, 0, 2, 2⟩, opWin 0 ⟨0, 0, 2, 2⟩,
+         opBind 3 .mouse [doing false a 2], opBind 2 .mouse [decl], opBind 1 .mouse [decl], opBind 0 .mouse [decl]] (newSt 5 8)
+
+/-- A popup (2) over a window (1): the popup claims the press and closes itself.  (claim_withdrawn_click_through.ops) -/
+def popupClosesItself : Option St :=
+  build [opWin 0 ⟨0, 0, 2, 2⟩, opWin 0 ⟨0, 0, 2, 2⟩,
+         opBind 2 .mouse [doing true .close 2], opBind 1 .mouse [claim], opBind 0 .mouse [decl]] (newSt 5 8)
+
+/-- Window 1 hides itself in its key handler; its child 2 has a handler too.  (hidden_midway_key.ops) -/
+def hidesItself : Option St :=
+  build [opWin 0 ⟨0, 0, 3, 3⟩, opWin 1 ⟨0, 0, 2, 2⟩,
+         opBind 1 .key [doing false .hide 1], opBind 2 .key [decl]] (newSt 5 8)
+
+/-- A drag that starts in window 2 (child of 1); then 1 is hidden; then the drag goes on elsewhere.
+    (drag_source_hidden_parent.ops) -/
+def dragThenHideParent (cfg : Cfg) : Option St :=
+  build [opWin 0 ⟨0, 0, 3, 3⟩, opWin 1 ⟨0, 0, 2, 2⟩, opBind 2 .mouse [claim],
+         opMouse cfg { type := evPress, button := 1, line := 0, col := 0 },
+         opMouse cfg { type := evDrag, button := 1, line := 0, col := 1 },
+         opAct .hide 1] (newSt 5 8)
+
+/-- Did some offer in the log go to a window that was hidden (itself or an ancestor) at that moment? -/
+def hiddenOffer (o : Option (Out St)) : Option Bool :=
+  o.bind fun r => match r with
+    | .ok s => some (s.log.any fun i => match i with | .offer _ _ _ b => !b | _ => false)
+    | _ => none
+
+def key : Ev := { type := 2 }
+def press : Ev := { type := evPress, button := 1, line := 0, col := 0 }
+
+end Scenario
+
+open Scenario in
+/-- Before the repair: the front-most sibling closes the next one; the closed window is still offered the key and
+    window 1 behind it never is.  The reference order is 0, 3, 2, 1; with window 2 gone, 0, 3, 1. -/
+theorem next_closed_derails_counterexample :
+    offered ((threeSiblingsKey .close).map fun s => emitKey Cfg.legacy s key) = some [0, 3, 2] ∧
+    offered ((threeStackedMouse .close).map fun s => emitMouse Cfg.legacy s press) = some [3, 2, 0] := by
+  decide +kernel
+
+open Scenario in
+/-- After the repair the same histories offer the event to every window that is still there, in order. -/
+theorem repaired_next_closed :
+    offered ((threeSiblingsKey .close).map fun s => emitKey Cfg.repaired s key) = some [0, 3, 1] ∧
+    offered ((threeStackedMouse .close).map fun s => emitMouse Cfg.repaired s press) = some [3, 1, 0] := by
+  decide +kernel
+
+open Scenario in
+/-- Before the repair: the front-most sibling drops the last reference of the next one; the loop then reads
+    `child->next` from freed memory. -/
+theorem next_freed_ub_counterexample :
+    isUb ((threeSiblingsKey .unref).map fun s => emitKey Cfg.legacy s key) = some true ∧
+    isUb ((threeStackedMouse .unref).map fun s => emitMouse Cfg.legacy s press) = some true := by
+  decide +kernel
+
+open Scenario in
+/-- After the repair the snapshot's reference keeps window 2 alive until the walk is over: everybody is offered the
+    event, nothing undefined happens. -/
+theorem repaired_next_freed :
+    offered ((threeSiblingsKey .unref).map fun s => emitKey Cfg.repaired s key) = some [0, 3, 2, 1] ∧
+    offered ((threeStackedMouse .unref).map fun s => emitMouse Cfg.repaired s press) = some [3, 2, 1, 0] := by
+  decide +kernel
+
+open Scenario in
+/-- With the rule of commit 443f8da (`is_closed || refcount == 1 → ret = NULL`): the popup's claim is withdrawn and the
+    window behind it is offered the same press.  With the counted reference the claim stands. -/
+theorem claim_withdrawn_counterexample :
+    offered (popupClosesItself.map fun s => emitMouse ⟨true, false, true⟩ s press) = some [2, 1] ∧
+    offered (popupClosesItself.map fun s => emitMouse Cfg.repaired s press) = some [2] := by
+  decide +kernel
+
+open Scenario in
+/-- Before the visibility repair: a window that hides itself still has its children offered the key, and a drag
+    source whose parent was hidden still receives DRAG_OUTSIDE; after it, neither happens (`hidden_never`). -/
+theorem hidden_descendant_counterexample :
+    hiddenOffer (hidesItself.map fun s => emitKey ⟨true, true, false⟩ s key) = some true ∧
+    hiddenOffer (hidesItself.map fun s => emitKey Cfg.repaired s key) = some false ∧
+    hiddenOffer ((dragThenHideParent ⟨true, true, false⟩).map fun s =>
+      emitMouse ⟨true, true, false⟩ s { type := evDrag, button := 1, line := 4, col := 4 }) = some true ∧
+    hiddenOffer ((dragThenHideParent Cfg.repaired).map fun s =>
+      emitMouse Cfg.repaired s { type := evDrag, button := 1, line := 4, col := 4 }) = some false := by
+  decide +kernel
+
+/-- The application states the engine can reach: a fresh root, new windows, bindings, the application's actions,
+    flushes, and events — all on the repaired code. -/
+inductive Reachable : St → Prop where
+  | fresh (lines cols : Int) : Reachable (newSt lines cols)
+  | win {st st' : St} {id : WinTree.Id} (p : WinTree.Id) (r : Rect) (a b c d : Bool) :
+      Reachable st → newWin st p r a b c d = Res.ok (st', id) → Reachable st'
+  | bind {st : St} (w : WinTree.Id) (k : Kind) (es : List Entry) : Reachable st → Reachable (addBinding st w k es).1
+  | act {st st' : St} (a : Action) : Reachable st → doAction st a = Res.ok st' → Reachable st'
+  | flush {st st' : St} : Reachable st → flushSt st = Res.ok st' → Reachable st'
+  | key {st st' : St} (ev : Ev) : Reachable st → emitKey Cfg.repaired st ev = Out.ok st' → Reachable st'
+  | mouse {st st' : St} (ev : Ev) : Reachable st → emitMouse Cfg.repaired st ev = Out.ok st' → Reachable st'
+
+/-- **mutation_safe**, the full statement (open; see `open_statements` in engines.d/C14.json): in no reachable state
+    does a key or mouse event make the repaired code touch freed memory, dereference NULL or abort — whatever the
+    handlers close, unref, hide, restack, focus or steal.  (Delivery to the windows a mutation does not affect is
+    the run-time oracle of Driver/Input.lean; the static case is `key_order` / `mouse_target`.) -/
+def mutation_safe_full : Prop :=
+  ∀ (st : St), Reachable st → ∀ (ev : Ev),
+    (emitKey Cfg.repaired st ev).isUb = false ∧ (emitMouse Cfg.repaired st ev).isUb = false
+
+/-! ### the hypotheses of the theorems above are met by real histories (non-vacuity) -/
+
+namespace Scenario
+
+/-- A tree with overlap, nesting, a hidden subtree, a stealing front-most child and a focused window. -/
+def rich : Option St :=
+  build [opWin 0 ⟨1, 1, 3, 4⟩, opWin 0 ⟨2, 3, 3, 4⟩, opWin 1 ⟨0, 1, 2, 2⟩, opWin 0 ⟨0, 0, 2, 2⟩ 1, opWin 4 ⟨0, 0, 1, 1⟩,
+         opWin 0 ⟨0, 5, 2, 3⟩ 8,
+         opBind 0 .key [decl], opBind 1 .key [decl, claim], opBind 2 .key [decl], opBind 3 .key [decl], opBind 5 .key [decl],
+         opBind 6 .key [decl],
+         opBind 0 .mouse [decl], opBind 1 .mouse [decl], opBind 2 .mouse [decl], opBind 3 .mouse [claim], opBind 6 .mouse [decl],
+         opAct .focus 3] (newSt 6 9)
+
+end Scenario
+
+namespace Scenario
+
+def richSt : St := rich.getD (newSt 0 0)
+
+/-- The press of button 1 at terminal cell (2,3): inside window 1 (at 1,1), inside its child 3 (at 1,2 absolute),
+    inside window 2 (at 2,3) which is in front of 1; the stealing window 6 is in front of everything. -/
+def pressAt : Ev := { type := evPress, button := 1, line := 2, col := 3, mod := 4 }
+
+end Scenario
+
+open Scenario in
+/-- `key_order`, `key_order_reference`: a state with the hypotheses (`Static`, `WF`) in which the dispatch returns and
+    the reference order is defined — and is not trivial: the stealing child 6 comes first and is visited twice, then
+    the focus chain (3 inside 1), then the root, then 2; the hidden subtree 4, 5 is absent; nobody claims. -/
+example : Static richSt.binds ∧ WF richSt.tree ∧
+    (∃ st', onTermKey Cfg.repaired (routeFuel richSt.tree) richSt key = Out.ok (st', false)) ∧
+    keyVisits richSt.tree (routeFuel richSt.tree) 0 = some [6, 3, 1, 0, 6, 2] ∧
+    keyOrder richSt.tree (routeFuel richSt.tree) 0 = some [6, 3, 1, 0, 2] :=
+  ⟨staticCheck_sound (by decide +kernel), wfCheck_sound (by decide +kernel),
+   key_returns (by decide +kernel), by decide +kernel, by decide +kernel⟩
+
+open Scenario in
+/-- `mouse_target`, `mouse_relative`: same state; the press at (2,3) is offered to the stealing window 6 (at 0,5:
+    position (2,-2)), then to window 2 (position (0,0)), then to 3 inside 1 (position (1,1)), which claims; window 1
+    and the root behind it are not offered it.  The origins are those of `tickit_window_get_abs_geometry`. -/
+example : (∃ st', handleMouse Cfg.repaired (routeFuel richSt.tree) richSt 0 pressAt = Out.ok (st', some 3)) ∧
+    (mouseVisits richSt.tree (routeFuel richSt.tree) 0 pressAt).map (·.map fun p => (p.1, p.2.line, p.2.col)) =
+      some [(6, 2, -2), (2, 0, 0), (3, 1, 1), (1, 1, 2), (0, 2, 3)] ∧
+    OriginSum richSt.tree (some 3) 1 2 ∧ OriginSum richSt.tree (some 0) 0 0 :=
+  ⟨mouse_returns (by decide +kernel), by decide +kernel,
+   origin_of_test (f := treeFuel richSt.tree) (by decide +kernel), origin_of_test (f := treeFuel richSt.tree) (by decide +kernel)⟩
+
+open Scenario in
+/-- `hidden_never`, `drag_start_first`, `drag_drop_stop_order`: histories with the hypotheses — a handler that hides
+    its own window in the middle of a dispatch (and the dispatch returns), a DRAG while nothing is being dragged,
+    and a RELEASE while a drag is in progress (both return, with handlers running). -/
+example :
+    (∃ st st', hidesItself = some st ∧ onTermKey Cfg.repaired (routeFuel st.tree) st key = Out.ok (st', false)) ∧
+    (∃ st st' r, dragThenHideParent Cfg.repaired = some st ∧ st.tree.root.mouseDragging = true ∧
+      onTermMouse Cfg.repaired (routeFuel st.tree) st { type := evRelease, button := 1, line := 4, col := 4 } = Out.ok (st', r)) ∧
+    (∃ st st' r, popupClosesItself = some st ∧ st.tree.root.mouseDragging = false ∧
+      onTermMouse Cfg.repaired (routeFuel st.tree) st { type := evDrag, button := 1, line := 0, col := 0 } = Out.ok (st', r)) := by
+  refine ⟨?_, ?_, ?_⟩
+  · cases h : hidesItself with
+    | none => exact absurd h (by decide +kernel)
+    | some st =>
+      have : (match onTermKey Cfg.repaired (routeFuel st.tree) st key with | .ok (_, d) => d == false | _ => false) = true := by
+        have e : some st = hidesItself := h.symm
+        have key' : (hidesItself.map fun s => match onTermKey Cfg.repaired (routeFuel s.tree) s key with
+          | .ok (_, d) => d == false | _ => false) = some true := by decide +kernel
+        rw [← e] at key'; simpa using key'
+      obtain ⟨st', hs⟩ := key_returns this
+      exact ⟨st, st', rfl, hs⟩
+  · cases h : dragThenHideParent Cfg.repaired with
+    | none => exact absurd h (by decide +kernel)
+    | some st =>
+      have e : some st = dragThenHideParent Cfg.repaired := h.symm
+      have k1 : ((dragThenHideParent Cfg.repaired).map fun s => s.tree.root.mouseDragging) = some true := by decide +kernel
+      have k2 : ((dragThenHideParent Cfg.repaired).map fun s =>
+          (onTermMouse Cfg.repaired (routeFuel s.tree) s { type := evRelease, button := 1, line := 4, col := 4 }).isOk) = some true := by
+        decide +kernel
+      rw [← e] at k1 k2
+      simp only [Option.map_some, Option.some.injEq] at k1 k2
+      cases hx : onTermMouse Cfg.repaired (routeFuel st.tree) st { type := evRelease, button := 1, line := 4, col := 4 } with
+      | ok p => exact ⟨st, p.1, p.2, rfl, k1, by rw [hx]⟩
+      | ub w => rw [hx] at k2; simp [Out.isOk] at k2
+      | fuel => rw [hx] at k2; simp [Out.isOk] at k2
+  · cases h : popupClosesItself with
+    | none => exact absurd h (by decide +kernel)
+    | some st =>
+      have e : some st = popupClosesItself := h.symm
+      have k1 : (popupClosesItself.map fun s => s.tree.root.mouseDragging) = some false := by decide +kernel
+      have k2 : (popupClosesItself.map fun s =>
+          (onTermMouse Cfg.repaired (routeFuel s.tree) s { type := evDrag, button := 1, line := 0, col := 0 }).isOk) = some true := by
+        decide +kernel
+      rw [← e] at k1 k2
+      simp only [Option.map_some, Option.some.injEq] at k1 k2
+      cases hx : onTermMouse Cfg.repaired (routeFuel st.tree) st { type := evDrag, button := 1, line := 0, col := 0 } with
+      | ok p => exact ⟨st, p.1, p.2, rfl, k1, by rw [hx]⟩
+      | ub w => rw [hx] at k2; simp [Out.isOk] at k2
+      | fuel => rw [hx] at k2; simp [Out.isOk] at k2
+
+/-- `mutation_safe_full`: reachable states exist, beyond the fresh one, and events return in them. -/
+example : ∃ st, Reachable st ∧ st.tree.wins.size = 2 :=
+  ⟨_, Reachable.win (id := 1) 0 ⟨0, 0, 2, 2⟩ false false false false (Reachable.fresh 5 8) rfl, rfl⟩
 
 end Tickit.Props.C14
